@@ -44,10 +44,11 @@ type script struct {
 	ttl6   uint32
 	udp    bool
 	tcp    bool
+	chunk  int // when > 0 the resolver's TCP connection returns at most this many bytes per Read
 }
 
 func (s script) String() string {
-	return fmt.Sprintf("u4=%s;u6=%s;t4=%s;t6=%s;order=%s;ttl4=%d;ttl6=%d;udp=%v;tcp=%v", s.u4, s.u6, s.t4, s.t6, s.order, s.ttl4, s.ttl6, s.udp, s.tcp)
+	return fmt.Sprintf("u4=%s;u6=%s;t4=%s;t6=%s;order=%s;ttl4=%d;ttl6=%d;udp=%v;tcp=%v;chunk=%d", s.u4, s.u6, s.t4, s.t6, s.order, s.ttl4, s.ttl6, s.udp, s.tcp, s.chunk)
 }
 
 func parseScript(p string) script {
@@ -73,6 +74,8 @@ func parseScript(p string) script {
 			s.udp = v == "true"
 		case "tcp":
 			s.tcp = v == "true"
+		case "chunk":
+			fmt.Sscan(v, &s.chunk)
 		}
 	}
 	return s
@@ -169,6 +172,7 @@ type tcpStub struct {
 	conns   []*vnet.Conn
 	pending []*vnet.Conn
 	fail    bool
+	chunk   int
 }
 
 func (c *tcpStub) NewStreamDialer() (netio.StreamDialer, netio.StreamDialerInfo) {
@@ -181,6 +185,7 @@ func (c *tcpStub) DialStream(ctx context.Context, addr conn.Addr, payload []byte
 		return nil, vnet.ErrRefused
 	}
 	near, far := vnet.Pair("resolver>tcp", "upstream.tcp", 1<<16)
+	near.ReadChunk = c.chunk
 	if len(payload) > 0 {
 		near.Write(payload)
 	}
@@ -430,6 +435,7 @@ func lookupScenario(param string) vsched.Scenario {
 		done := false
 		body := func() {
 			e = newEnv(sc.udp, sc.tcp, 8)
+			e.stub.chunk = sc.chunk
 			e.scripts = []script{sc}
 			var g vsched.Group
 			stop := e.serve(&g)
@@ -766,6 +772,19 @@ func main() {
 				s.t4 = tb
 				add(s)
 				s.t4, s.t6 = "valid", tb
+				add(s)
+			}
+		}
+		if tcp {
+			// responses that reach the resolver in several reads (segment boundaries inside a message)
+			for _, ch := range []int{1, 5, 31} {
+				s := base
+				if udp {
+					s.u4, s.u6 = "silence", "truncated"
+				}
+				s.chunk = ch
+				add(s)
+				s.t6 = "nxdomain"
 				add(s)
 			}
 		}
